@@ -382,7 +382,7 @@ class Oracle(object):
         r = c._resources
         now = env.now
         q = env._queue
-        urgent_pending = bool(q) and q[0][0] == now and q[0][1] == 0
+        urgent_pending = bool(q) and q[0][0] == now and q[0][1] < 1
         # ---- C02 partition
         ids = [m.id for m in r['available']] + [m.id for m in r['ingest']] + [m.id for m in r['occupied']]
         for o, ms in r['idle'].items():
